@@ -27,8 +27,11 @@ SHORTHEX = z3.Function("short_hex_text", *([z3.IntSort()] * 7))
 
 class Ctx:
     def __init__(self):
+        from .hublib import source_fns
+        want = set(WANT) | source_fns("bidir.rs", "archive.rs")
+
         def keep(n):
-            return n in WANT or n.startswith(tuple(w + "::" for w in WANT)) or n.startswith("archive::") \
+            return n in want or n.startswith(tuple(w + "::" for w in want)) or n.startswith(("archive::", "bidir::")) \
                 or n in ("reconcile", "reconcile_path") or n.startswith(("reconcile::", "reconcile_path::"))
         self.mir, self.mir_path, self.dump_s = env.load("bin", keep)
         self.idx = env.impl_index(self.mir)
@@ -673,6 +676,7 @@ def run_obligations(ctx, R, prover, pid, U=2):
                  (_re.compile(r"^<std::slice::Iter<'_, \(PathBuf, Action\)> as Iterator>::filter::<"), opaque, "Iterator::filter (feeds a log line only)"),
                  (_re.compile(r"^core::slice::<impl \[\(PathBuf, Action\)\]>::iter$"), opaque, "slice::iter (feeds a log line only)"),
                  (_re.compile(r"^<Vec<\(PathBuf, Action\)> as Deref>::deref$"), lambda e_, s_, a, d, f, w: a[0], "Vec deref"),
+                 (_re.compile(r"^Vec::<\(PathBuf, Action\)>::is_empty$"), lambda e_, s_, a, d, f, w: VBool(simp(fsmodels._deep(e_, s_, a[0]).len == 0)), "Vec::is_empty"),
                  (_re.compile(r"^Vec::<\(PathBuf, Action\)>::len$"), lambda e_, s_, a, d, f, w: VInt(fsmodels._deep(e_, s_, a[0]).len, "usize"), "Vec::len"),
                  (_re.compile(r"^Vec::<\(PathBuf, Action\)>::new$"), deltamodels._vlist_new, "Vec<(PathBuf, Action)>::new"),
                  (_re.compile(r"^Vec::<\(PathBuf, Action\)>::push$"), deltamodels._vlist_push, "Vec<(PathBuf, Action)>::push"),
@@ -709,7 +713,10 @@ def run_obligations(ctx, R, prover, pid, U=2):
         goals["at-most-one-save,-to-the-pair's-archive-path,-with-the-epoch-advanced-by-one"] = z3.And(
             _all(z3.Not(z3.And(x["guard"], y["guard"])) for i, x in enumerate(saves) for y in saves[i + 1:]),
             _all(z3.Implies(sv["guard"], z3.And(sv["path"] == z3.Int("ARCHIVE_PATH"), sv["pair"] == z3.Int("PAIR"), sv["epoch"] == z3.If(loaded, epoch0 + 1, 1))) for sv in saves))
-    if pid == "C06":
+    if pid in ("C06", "C02"):
+        ok_run = simp(res.discr == 0)
+        goals["a-run-that-returns-Ok-without-dry_run-has-saved-the-common-state"] = z3.Implies(
+            z3.And(ok_run, z3.Not(dry)), _any(z3.And(sv["guard"], sv["ok"]) for sv in saves))
         # the recorded common state is exactly the tree both sides hold after the run (per-path table semantics)
         conds = []
         for sv in saves:
@@ -737,3 +744,119 @@ def run_obligations(ctx, R, prover, pid, U=2):
                  "run_bisync over an ordered universe of %d paths: both scans, the loaded archive (present or not, any entries), dry_run/verbose symbolic; "
                  "reconcile runs from MIR, apply is the contract decided by the apply obligations (any outcome), save records its argument; epoch < 2^64-1" % U,
                  ["run_bisync", "reconcile", "reconcile_path"], bisyncnative.make_witness(R, pid, "run"), covers=covers)
+
+
+# ----------------------------------------------------------------- pair identity (C06 / C07)
+
+def pair_hash_obligation(ctx, R, prover, pid):
+    """root_pair_hash from MIR: the id is BLAKE3 over exactly  bytes(canon(A)) 0x00 bytes(canon(B))  where canon(p) is
+    canonicalize(p) or p itself; the hash input is recorded as a list of segments (no byte model of paths needed)"""
+    import re as _re
+    ex = ctx.ex()
+    CANON = z3.Function("canonical_path", z3.IntSort(), z3.IntSort())
+    segs = []
+
+    def canonicalize(ex_, st, args, dest_ty, func, where):
+        p = fsmodels.path_term(ex_, st, args[0])
+        okc = z3.Bool("canon_ok!%d" % len([1 for _ in segs]) + str(p))
+        fsmodels.record(ex_, st, "canonicalize", path=p, ok=okc)
+        return fsmodels.io_result(ex_, okc, pathv(CANON(p)))
+
+    def res_unwrap_or_else(ex_, st, args, dest_ty, func, where):
+        from mirsmt.stdmodels import _call_fn_value
+        from mirsmt.symexec import merge
+        r, f = fsmodels._deep(ex_, st, args[0]), args[1]
+        okv = r.pay[0][0] if 0 in r.pay else None
+        st2 = st
+        alt = _call_fn_value(ex_, st2, f, [r.pay[1][0] if 1 in r.pay else VOpaque("err")], where)
+        if okv is None:
+            return alt
+        return merge(simp(r.discr == 0), okv, alt)
+
+    def encoded_bytes(ex_, st, args, dest_ty, func, where):
+        return VRef("val", val=VStruct("PathBytes", [VInt(fsmodels.path_term(ex_, st, args[0]), "usize")]))
+
+    def h_new(ex_, st, args, dest_ty, func, where):
+        return VStruct("SegHasher", [VInt(I(0), "usize")])
+
+    def seg_of(ex_, st, v):
+        v = fsmodels._deep(ex_, st, v)
+        if isinstance(v, VStruct) and v.name == "PathBytes":
+            return ("path-bytes", v.f[0].t)
+        if isinstance(v, VSeq) and z3.is_int_value(simp(v.len)):
+            return ("literal", bytes(simp(v.at(I(i))).as_long() for i in range(simp(v.len).as_long())).hex())
+        if isinstance(v, VStruct) and v.name == "[array]":
+            return ("literal", bytes(simp(x.t).as_long() for x in v.f).hex())
+        if isinstance(v, VOpaque) and isinstance(v.what, tuple) and v.what[0] in ("bstr", "str"):
+            return ("literal-text", str(v.what[1]))
+        try:
+            return ("text", fsmodels.text_term(ex_, st, v))
+        except Unsupported:
+            return ("unknown", str(v)[:60])
+
+    def h_update(ex_, st, args, dest_ty, func, where):
+        segs.append((st.guard, seg_of(ex_, st, args[1])))
+        return args[0]
+
+    def h_hash(ex_, st, args, dest_ty, func, where):
+        segs.append((st.guard, seg_of(ex_, st, args[0])))
+        return VStruct("SegHash", [])
+
+    def h_fin(ex_, st, args, dest_ty, func, where):
+        return VStruct("SegHash", [])
+
+    def to_hex(ex_, st, args, dest_ty, func, where):
+        return strv(z3.Int("PAIR_ID"))
+
+    def ident(ex_, st, args, dest_ty, func, where):
+        return fsmodels._deep(ex_, st, args[0])
+    DISPLAY = z3.Function("lossy_display_text", z3.IntSort(), z3.IntSort())
+
+    def display(ex_, st, args, dest_ty, func, where):
+        return strv(DISPLAY(fsmodels.path_term(ex_, st, args[0])))
+    ex.models = [(_re.compile(r"^Path::display$"), display, "Path::display (LOSSY text of the path: an uninterpreted function, not its bytes)"),
+                 (_re.compile(r"^std::fs::canonicalize::<"), canonicalize, "fs::canonicalize (any outcome)"),
+                 (_re.compile(r"^(std::result::)?Result::<PathBuf, std::io::Error>::unwrap_or_else::<"), res_unwrap_or_else, "Result::unwrap_or_else"),
+                 (_re.compile(r"^(std::ffi::)?OsStr::as_encoded_bytes$"), encoded_bytes, "OsStr::as_encoded_bytes (the path's bytes, named by the path)"),
+                 (_re.compile(r"^blake3::Hasher::new$"), h_new, "blake3::Hasher::new (input recorded as segments)"),
+                 (_re.compile(r"^blake3::Hasher::update$"), h_update, "blake3::Hasher::update (segment recorded)"),
+                 (_re.compile(r"^blake3::Hasher::finalize$"), h_fin, "blake3::Hasher::finalize"),
+                 (_re.compile(r"^blake3::hash$"), h_hash, "blake3::hash (one segment recorded)"),
+                 (_re.compile(r"^blake3::Hash::to_hex$"), to_hex, "Hash::to_hex"),
+                 (_re.compile(r"^<arrayvec::array_string::ArrayString<64> as ToString>::to_string$|^(std::string::)?String::as_bytes$|^str::<impl str>::as_bytes$|^core::str::<impl str>::as_bytes$"), ident, "string views"),
+                 ] + ex.models
+    PA, PB = z3.Int("ROOT_A"), z3.Int("ROOT_B")
+    st = State()
+    res = ex.exec_fn(ctx.fn(ex, "root_pair_hash"), [VRef("val", val=pathv(PA)), VRef("val", val=pathv(PB))], st)
+    if res is None:
+        raise Inconclusive("root_pair_hash never returns")
+    ex.exit_guards.append(st.guard)
+    canon = {}
+    for e in fsmodels.effects(ex):
+        if e["call"] == "canonicalize":
+            canon[str(simp(e["path"]))] = (e["path"], e["ok"])
+
+    def is_canon_bytes(seg, root):
+        kind, t = seg
+        if kind != "path-bytes":
+            return z3.BoolVal(False)
+        okc = [ok_ for (p, ok_) in canon.values() if p.eq(root)]
+        c_ok = okc[0] if okc else z3.BoolVal(False)
+        return z3.If(c_ok, t == CANON(root), t == root)
+    shape = len(segs) == 3 and segs[1][1] == ("literal", "00")
+    goals = {"the-pair-id-hashes-exactly:-bytes-of-canonical-A,-one-NUL-byte,-bytes-of-canonical-B": z3.And(
+        z3.BoolVal(bool(shape)), *( [segs[0][0], segs[1][0], segs[2][0], is_canon_bytes(segs[0][1], PA), is_canon_bytes(segs[2][1], PB)] if shape else []))}
+    R.assumptions += [a for a in ["pair identity: BLAKE3 is collision-free on the recorded input (ideal hash); the obligation is about WHAT is hashed"] if a not in R.assumptions]
+
+    def witness(name, model, neg):
+        from . import hubnative
+        case = {"fn": "pair_hash"}
+        res_n = {p: hubnative.run_cases([case], p)[0] for p in ("dev", "release")}
+        bad = {p: r for p, r in res_n.items() if "panic" in r or r.get("collisions") or not r.get("order_sensitive", True)}
+        if bad:
+            case["observed"] = res_n
+            return {"confirmed": True, "replay_path": R.save_replay("%s/root_pair_hash" % pid, case), "key": "%s/root_pair_hash" % pid,
+                    "detail": "root_pair_hash: different directory pairs get the same id (so one pair's archive is trusted for the other): %s" % json.dumps(bad)[:300]}
+        return {"confirmed": False, "detail": "native root_pair_hash separates the probe pairs (%s)" % json.dumps(res_n)[:200]}
+    prover.prove(ex, goals, "%s/root_pair_hash" % pid, "any two paths; canonicalize may fail for either; the hash input is recorded symbolically (segments), paths are uninterpreted names",
+                 ["root_pair_hash"], witness, covers={"reachable": z3.BoolVal(True)})
